@@ -1,5 +1,5 @@
 /-
-  C07 — translation tie for clip/clip.go (`bitCode`, `bitCodeOpen`, `intersect`).
+  C07 — translation tie for clip/clip.go (`bitCode`, `bitCodeOpen`, `intersect`, `clampToBound`).
   `Generated/ClipGo.lean` is REGENERATED from /repo on every run by
   harness/cmd/factgen/translate_float.go; the theorems below prove each regenerated definition
   equal to the hand-written model definition of `Orb.Clip`, for every number type.
@@ -29,8 +29,17 @@ theorem bitCodeOpen_tie (b : Bound α) (p : Pt α) : Generated.ClipGo.bitCodeOpe
 theorem intersect_tie (box : Bound α) (edge : Nat) (a b : Pt α) :
     Generated.ClipGo.intersect box edge a b = Clip.intersect box edge a b := rfl
 
+/-- `clampToBound`: the Go code overwrites `p[0]`, then `p[1]`; the model builds the point at once
+    (the second test reads `p[1]`, which the first assignment does not touch). -/
+theorem clampToBound_tie (box : Bound α) (p : Pt α) :
+    Generated.ClipGo.clampToBound box p = Clip.clampToBound box p := by
+  obtain ⟨x, y⟩ := p
+  unfold Generated.ClipGo.clampToBound Clip.clampToBound
+  by_cases h1 : x < box.lo.x <;> by_cases h2 : x > box.hi.x <;> by_cases h3 : y < box.lo.y <;>
+    by_cases h4 : y > box.hi.y <;> simp [h1, h2, h3, h4]
+
 theorem all_translated_ClipGo : Generated.ClipGo.translated =
-    ["bitCode", "bitCodeOpen", "intersect", "clipBound"] := by
+    ["bitCode", "bitCodeOpen", "intersect", "clampToBound", "clipBound"] := by
   decide
 
 end Orb.C07Tie
